@@ -115,6 +115,43 @@ func RunPAA(idp *envx.IdP, tw *TraceWriter, rng *rand.Rand, tier string) (M, err
 			"claimsHost": fmt.Sprint(claims["remoteServer"]) == t.TargetServer, "atValid": idp.State(at) == "valid", "userIsSub": t.User.UserName() == sub})
 		n++
 	}
+	// ---- the same string presented again while the world changes (a verdict is a function of the token, the clock
+	// and the IdP - never of what was presented before): cookies that expire / become valid / are revoked between
+	// two presentations. Presented now and once more at the end of the run.
+	t0 := time.Now()
+	type aging struct {
+		kind   string
+		cookie string
+		at     string
+		rec    func() M
+	}
+	var agers []aging
+	{
+		key := []byte(KeyPAASign)
+		n0 := t0.Unix()
+		mk := func(kind string, exp, nbf int64, hasNbf bool) {
+			at := idp.Issue("user1")
+			m := map[string]interface{}{"iss": "rdpgw", "sub": "user1", "remoteServer": "h:1", "clientIp": "10.0.0.1", "accessToken": at, "exp": n0 + exp}
+			if hasNbf {
+				m["nbf"] = n0 + nbf
+			}
+			c := forge.JWS("HS256", key, forge.Header("HS256"), forge.Claims(m))
+			agers = append(agers, aging{kind, c, at, func() M {
+				d := time.Now().Unix() - n0
+				return tokRec("compact", "HS256", "gw", "rdpgw", true, int(exp-d), hasNbf, int(nbf-d), idp.State(at), "none")
+			}})
+		}
+		mk("age-expiring", -48, 0, false)      // inside the leeway now, outside it at the end of the run
+		mk("age-becoming-valid", 300, 72, true) // not yet valid now (beyond the leeway), valid (within the leeway) at the end
+		mk("age-revoked-later", 300, 0, false)
+		mk("age-steady", 300, 0, false)
+		for _, a := range agers {
+			emit(a.kind+":first", a.cookie, a.rec())
+			emit(a.kind+":again", a.cookie, a.rec())
+		}
+		idp.SetToken(agers[2].at, "revoked")
+		emit(agers[2].kind+":after-revocation", agers[2].cookie, agers[2].rec())
+	}
 	// ---- a reference token and its mutations
 	sub := "user1"
 	ref, refAt := mint(sub, "10.9.8.7:3389", "10.0.0.1")
@@ -254,6 +291,13 @@ func RunPAA(idp *envx.IdP, tw *TraceWriter, rng *rand.Rand, tier string) (M, err
 		}
 		emit("random", string(b), rec)
 	}
+	// ---- second presentation of the ageing cookies, 24 s after the first
+	if d := 24*time.Second - time.Since(t0); d > 0 {
+		time.Sleep(d)
+	}
+	for _, a := range agers {
+		emit(a.kind+":later", a.cookie, a.rec())
+	}
 	stats["presentations"] = n
 	return stats, nil
 }
@@ -350,6 +394,39 @@ func RunUserTok(tw *TraceWriter, rng *rand.Rand, tier string) (M, error) {
 		}
 	}
 	now := func() int64 { return time.Now().Unix() }
+	// ---- the same token presented again after it has expired (inside the leeway now, outside it at the end of the
+	// run): the verdict depends on the token and the clock, never on an earlier presentation
+	t0 := time.Now()
+	type ager struct {
+		vm, tok string
+		rec     func() M
+	}
+	var agers []ager
+	for _, vm := range []string{"enc", "signenc"} {
+		cl := map[string]interface{}{"sub": "ageing-user", "iss": "rdpgw", "exp": t0.Unix() - 48}
+		payload := forge.Claims(cl)
+		sk, sa := "none", "none"
+		if vm == "signenc" {
+			payload = []byte(forge.JWS("HS256", []byte(KeyUserSign), `{"alg":"HS256"}`, payload))
+			sk, sa = "gw", "HS256"
+		}
+		t := forge.JWEDir([]byte(KeyUserEnc), forge.HdrJWE, payload, true)
+		vmc, skc, sac := vm, sk, sa
+		a := ager{vm, t, func() M {
+			return userRec("jwe", vmc, "gw", skc, sac, "dir+A128CBC-HS256", "rdpgw", true, int(t0.Unix()-48-time.Now().Unix()), "none")
+		}}
+		agers = append(agers, a)
+		emit(vm, "age-expiring:first", "GET", true, t, a.rec(), "ageing-user")
+		emit(vm, "age-expiring:again", "GET", true, t, a.rec(), "ageing-user")
+	}
+	defer func() {
+		if d := 24*time.Second - time.Since(t0); d > 0 {
+			time.Sleep(d)
+		}
+		for _, a := range agers {
+			emit(a.vm, "age-expiring:later", "GET", true, a.tok, a.rec(), "ageing-user")
+		}
+	}()
 	for _, vm := range []string{"enc", "signenc"} {
 		other := map[string]string{"enc": "signenc", "signenc": "enc"}[vm]
 		for ui, user := range users {
